@@ -229,7 +229,8 @@ def graphCmd (j : Json) : R Json := do
           | .ok a => pure (a.toList.map fun x => x.getStr?.toOption.getD "")
           | .error e => .error e
         | .error _ => pure []
-      pure (Json.mkObj [("nodes", graphJson (unitScaleBackend user uct g))])
+      pure (Json.mkObj [("nodes", graphJson (unitScaleBackend user uct g)),
+                        ("topo", Json.bool (rewritten user g).topoB)])
   | "tables" => pure (Json.mkObj [
       ("torch_map", Json.arr (torchMap.map fun (a, b) => Json.arr #[Json.str a, Json.str b]).toArray),
       ("constraint_targets", Json.arr (constraintTargets.map Json.str).toArray)])
